@@ -488,6 +488,44 @@ def run(ck, ix, tier):
                 pairs[e.elts[0].value] = e.elts[1].value
         for pat, rep in (("({}) squared", "\\1**2"), ("({}) cubed", "\\1**3"), ("cubic ({})", "\\1**3"), ("square ({})", "\\1**2"), ("sq ({})", "\\1**2")):
             ck.check(pairs.get(pat) == rep, "G-TABLE", f"_subs_re_list|{pat}", U, f"`{pat}` -> `{rep}`", f"word form `{pat}` is rewritten to `{pairs.get(pat)}` instead of `{rep}`")
+        # regex syntax tree (re._parser, nothing is matched or executed): the entry that turns juxtaposition by blanks into
+        # `*` - replacement `\\1*`, pattern with a look-ahead for the next operand - must consume a RUN of whitespace
+        # (`\\s+`): the earlier space-merging entry does not cover `)`, so `a/(b)  (c)` relies on it
+        try:
+            import re._parser as _rp
+            import re._constants as _rc
+        except ImportError:      # Python < 3.11
+            import sre_parse as _rp
+            import sre_constants as _rc
+
+        def has_space_run(tree):
+            for op, av in tree:
+                if op is _rc.MAX_REPEAT or op is _rc.MIN_REPEAT:
+                    lo, hi, sub = av
+                    if lo >= 1 and hi == _rc.MAXREPEAT and any(o is _rc.IN and any(x == (_rc.CATEGORY, _rc.CATEGORY_SPACE) for x in a) for o, a in sub):
+                        return True
+                    if has_space_run(sub):
+                        return True
+                elif op is _rc.SUBPATTERN:
+                    if has_space_run(av[-1]):
+                        return True
+                elif op is _rc.BRANCH:
+                    if any(has_space_run(b) for b in av[1]):
+                        return True
+            return False
+        n_mul = 0
+        for pat, rep in pairs.items():
+            if rep != "\\1*" or "(?=" not in pat or not ("\\s" in pat or " " in pat):
+                continue
+            n_mul += 1
+            try:
+                tree = _rp.parse(pat.format("[_a-zA-Z][_a-zA-Z0-9]*"))
+                okr = has_space_run(tree)
+            except Exception:
+                okr = False
+            ck.check(okr, "G-TABLE", "_subs_re_list|blank-run-is-multiplication", U, "juxtaposition by any run of whitespace is rewritten to *",
+                     f"the pattern `{pat}` -> `{rep}` does not consume a run of whitespace (`\\s+`): `)` followed by two blanks or a tab and `(` is no longer multiplication at the priority of `*` (2/(4)  (5) parses as 2/((4)(5)))")
+        ck.floor("G-TABLE", n_mul, 1, "blank-juxtaposition entry of _subs_re_list")
     pt = ix.module(U).assigns.get("_pretty_table")
     if isinstance(pt, ast.Call) and len(pt.args) == 2 and all(isinstance(a, ast.Constant) for a in pt.args):
         a, b = pt.args[0].value, pt.args[1].value
